@@ -114,6 +114,13 @@ func runC19b(c c19bCase) (v *ev.Violation, missed bool, nearExpiry bool) {
 			}
 			active = a
 			armings = append(armings, a)
+		case "reregister":
+			if active != nil {
+				tr.RegisterOnElection(primitives.BlockHeight(active.h), primitives.View(active.v), cb) // same pair: must not re-arm
+				if d := time.Until(active.before.Add(2*active.timeout + 2*time.Millisecond)); d > 0 && d < 100*time.Millisecond {
+					time.Sleep(d) // long enough for a wrongly re-armed timer to fire as well
+				}
+			}
 		case "stop":
 			tr.Stop()
 			endActive()
@@ -163,23 +170,39 @@ func runC19b(c c19bCase) (v *ev.Violation, missed bool, nearExpiry bool) {
 	// ---- oracle over the history
 	mu.Lock()
 	defer mu.Unlock()
+	// Sound rules (timestamps of reads are taken after the receive, so a read cannot be pinned to one arming of a pair that
+	// was armed several times): per pair, no more triggers than armings; every trigger has an arming of its pair that is
+	// old enough (its timeout, measured from before the Register call, had passed when the trigger was read).
+	type pair struct{ h, v uint64 }
+	nArm, nRead := map[pair]int{}, map[pair]int{}
+	for _, a := range armings {
+		nArm[pair{a.h, a.v}]++
+	}
 	for _, r := range reads {
-		// attribute the trigger to the latest arming of that pair made before the read
-		var a *c19Arming
-		for _, x := range armings {
-			if x.h == r.h && x.v == r.v && x.before.Before(r.at) {
-				a = x
+		p := pair{r.h, r.v}
+		if nArm[p] == 0 {
+			return viol("trigger-for-unarmed-pair", "a trigger for (%d,%d) was delivered but that pair was never armed", r.h, r.v), false, nearExpiry
+		}
+		nRead[p]++
+		if nRead[p] > nArm[p] {
+			return viol("two-triggers-for-one-arming", "(%d,%d) was armed %d times but produced %d triggers", r.h, r.v, nArm[p], nRead[p]), false, nearExpiry
+		}
+		oldEnough := false
+		var early time.Duration
+		for _, a := range armings {
+			if a.h == r.h && a.v == r.v {
+				if e := a.before.Add(a.timeout).Sub(r.at); e <= 0 {
+					oldEnough = true
+				} else {
+					early = e
+				}
 			}
 		}
-		if a == nil {
-			return viol("trigger-for-unarmed-pair", "a trigger for (%d,%d) was delivered but that pair was never armed before", r.h, r.v), false, nearExpiry
+		if !oldEnough {
+			return viol("trigger-before-timeout", "the trigger for (%d,%d) came %v before its timeout had passed", r.h, r.v, early), false, nearExpiry
 		}
-		a.triggers++
-		if a.triggers > 1 {
-			return viol("two-triggers-for-one-arming", "the arming of (%d,%d) produced more than one trigger", r.h, r.v), false, nearExpiry
-		}
-		if early := a.before.Add(a.timeout).Sub(r.at); early > 0 {
-			return viol("trigger-before-timeout", "the trigger for (%d,%d) came %v before its timeout %v had passed", r.h, r.v, early, a.timeout), false, nearExpiry
+		if active != nil && active.h == r.h && active.v == r.v && !r.at.Before(active.before) {
+			active.triggers++
 		}
 	}
 	if active != nil && active.triggers == 0 {
@@ -197,7 +220,12 @@ func TestC19Trigger(t *testing.T) {
 			case 0, 1, 2:
 				c.Ops = append(c.Ops, c19Op{K: "register", H: uint64(rapid.IntRange(1, 3).Draw(t, "h")), V: uint64(rapid.IntRange(0, 3).Draw(t, "v"))})
 			case 3:
-				c.Ops = append(c.Ops, c19Op{K: "stop"})
+				if rapid.Bool().Draw(t, "rereg") {
+					// register the pair that is already active once more, after its expiry: must not arm a second timer
+					c.Ops = append(c.Ops, c19Op{K: "sleep", Rel: true, Us: rapid.IntRange(200, 1500).Draw(t, "afterexp")}, c19Op{K: "reregister"}, c19Op{K: "sleep", Rel: true, Us: rapid.IntRange(200, 1500).Draw(t, "afterexp2")})
+				} else {
+					c.Ops = append(c.Ops, c19Op{K: "stop"})
+				}
 			case 4:
 				c.Ops = append(c.Ops, c19Op{K: "sleep", Us: rapid.SampledFrom([]int{0, 100, 500, 2000, 6000}).Draw(t, "us")})
 			case 5, 6: // around the expiry of the active arming: -1ms .. +1ms
@@ -246,15 +274,19 @@ func runC19Node(c c19NodeCase) (*ev.Violation, bool) {
 	}
 	h := rt.New(c.Cfg)
 	h.Start()
+	// Sound measurement: a view's real duration is at most (first time the NEXT state was seen) - (last time the PREVIOUS state
+	// was seen); sampling delays can only enlarge that bound, so "bound < timeout" is a real violation whatever the load.
 	type sample struct {
-		hv [2]uint64
-		at time.Time
+		hv           [2]uint64
+		firstSeen    time.Time
+		prevLastSeen time.Time // last time the previous state was observed (the state was entered after this instant)
 	}
 	var samples []sample
 	stop := make(chan struct{})
 	done := make(chan struct{})
 	go func() {
 		defer close(done)
+		lastSeen := time.Now()
 		for {
 			select {
 			case <-stop:
@@ -262,9 +294,11 @@ func runC19Node(c c19NodeCase) (*ev.Violation, bool) {
 			default:
 			}
 			hh, vv := h.HV()
+			now := time.Now()
 			if n := len(samples); n == 0 || samples[n-1].hv != [2]uint64{hh, vv} {
-				samples = append(samples, sample{[2]uint64{hh, vv}, time.Now()})
+				samples = append(samples, sample{[2]uint64{hh, vv}, now, lastSeen})
 			}
+			lastSeen = now
 			time.Sleep(20 * time.Microsecond)
 		}
 	}()
@@ -283,8 +317,8 @@ func runC19Node(c c19NodeCase) (*ev.Violation, bool) {
 			continue
 		}
 		want := base << a.hv[1]
-		if got := b.at.Sub(a.at); got < want-1500*time.Microsecond {
-			return viol("view-left-before-timeout", "view %d lasted %v, less than its timeout %v", a.hv[1], got, want), false
+		if atMost := b.firstSeen.Sub(a.prevLastSeen); atMost < want-200*time.Microsecond {
+			return viol("view-left-before-timeout", "view %d lasted at most %v, less than its timeout %v", a.hv[1], atMost, want), false
 		}
 	}
 	// liveness: with base b and wait w the node must have passed view k where b*(2^(k+1)-1) + slack < w
